@@ -24,7 +24,8 @@ themes = {1: 'any realistic break', 2: 'the less obvious corners', 3: 'CONJUNCTI
           9: 'the less-travelled corners of the configuration space (IPv6 and mixed-family tunnels, AH, RSA, lifetime -1, several connections) and numeric boundaries',
           10: 'defects that hide in Python semantics (aliasing and in-place mutation, class-level state, truthiness of 0 / empty values, identity versus equality, exceptions raised inside handlers, signed struct formats, int constructors)',
           11: 'breaks that need TWO INDEPENDENT ADVERSE EVENTS in one history, or a legal event arriving in a RARE STATE, and roll-back / clean-up code that runs only then',
-          12: 'TIME and the order of work inside one loop turn (deadlines computed from the wrong base, several deadlines due in one turn, a process that was suspended for minutes, events served in the turn in which a deadline expires, counters and jitter that drift)'}
+          12: 'TIME and the order of work inside one loop turn (deadlines computed from the wrong base, several deadlines due in one turn, a process that was suspended for minutes, events served in the turn in which a deadline expires, counters and jitter that drift)',
+          13: 'a BUSIER daemon (three or more peers, several connections, several local addresses, several protect entries, many CHILD_SAs: state looked up by the wrong key, cross-talk between connections, the 2nd / 3rd element of a list) and the small helpers the state machine relies on'}
 head = f"""## 6. Seeded property-breaking changes and which checks catch them
 
 {n} changes, {2 * len(rounds)} per property in {len(rounds)} rounds, each written by a fresh sub-agent that saw only the property text and a scratch worktree of /repo
